@@ -11,7 +11,15 @@ for f in sorted(glob.glob(str(VERIF / 'seeded' / '*' / 'meta.json'))):
     files = ', '.join(sorted({x.split('|')[0].strip().replace('src/emsarray/', '') for x in m.get('files_touched', [])}))
     verdicts = '; '.join(
         f"{r['property']}: " + ('**missed**' if r.get('exit') == 0 else
-                                (r.get('signature') or r.get('kind') or f"exit {r.get('exit')}")) for r in off) or 'not run'
+                                (r.get('signature') or r.get('kind') or f"exit {r.get('exit')}")) for r in off)
+    if not verdicts:
+        # not applied to /repo itself: the verdict of the same quick check in a private copy of /verif on a scratch worktree
+        iso = m.get('check_in_isolated_copy')
+        if iso:
+            verdicts = (f"{iso['property']}: " + ('**missed**' if iso.get('exit') == 0 else
+                        (iso.get('signature') or iso.get('kind') or f"exit {iso.get('exit')}")) + ' (in a private copy, scratch worktree)')
+        else:
+            verdicts = 'not run'
     rows.append(f"| {m['id']} | {m['property']} | {files} | {'yes' if m['confirmed']['valid'] else 'NO'} | {verdicts} |")
 table = ('| Seed | Property | Files touched | Confirmed (demo, tests) | Verdict of the registered quick check on /repo with the change applied |\n'
          '|---|---|---|---|---|\n' + '\n'.join(rows))
